@@ -36,8 +36,29 @@ type Run struct {
 	Assume    []string
 	Explain   string
 	Extra     map[string]interface{}
-	start     time.Time
-	seen      map[string]bool
+	// Rename, when set, rewrites the rule name of every obligation recorded: a rule family of one property that is
+	// a necessary condition of another is run under the other's name (and decided against the other's known findings).
+	Rename func(rule string) string
+	// Filter, when set, drops obligations it returns false for (used with Rename to import part of a rule family).
+	Filter func(o *Obligation) bool
+	start  time.Time
+	seen   map[string]bool
+}
+
+// Under runs f with rule names starting with from rewritten to start with to.
+func (r *Run) Under(from, to string, f func()) {
+	old := r.Rename
+	r.Rename = func(rule string) string {
+		if strings.HasPrefix(rule, from) {
+			rule = to + strings.TrimPrefix(rule, from)
+		}
+		if old != nil {
+			rule = old(rule)
+		}
+		return rule
+	}
+	defer func() { r.Rename = old }()
+	f()
 }
 
 func NewRun(prop, tier, verifDir string, p *Program) *Run {
@@ -45,6 +66,12 @@ func NewRun(prop, tier, verifDir string, p *Program) *Run {
 }
 
 func (r *Run) add(o Obligation) {
+	if r.Filter != nil && !r.Filter(&o) {
+		return
+	}
+	if r.Rename != nil {
+		o.Rule = r.Rename(o.Rule)
+	}
 	k := o.Key() + "|" + o.Status + "|" + o.Detail
 	if r.seen[k] {
 		return
